@@ -306,6 +306,11 @@ fn replay(ctx: &mut Ctx, v: &Value) {
         let c: wmcheck::Case = serde_json::from_value(v["wm"].clone()).expect("replay: not a wavelet matrix case");
         check_wm(ctx, &c.values);
         return;
+    } else if v.get("values").is_some() {
+        // the shape the shared wavelet-matrix checks announce
+        let c: wmcheck::Case = serde_json::from_value(v.clone()).expect("replay: not a wavelet matrix case");
+        check_wm(ctx, &c.values);
+        return;
     } else { v };
     let c: Case = serde_json::from_value(inner.clone()).expect("replay: not a C09 case");
     match c {
